@@ -115,7 +115,7 @@ public:
   HarnessInfo info() const override {
     HarnessInfo i;
     i.real = {"writers: DataTable::write (ostream and OutputStream overloads)", "BppODiscreteDistributionFormat::writeDiscreteDistribution", "BppOParametrizableFormat::write", "ParameterList::printParameters", "IntervalConstraint::getDescription",
-              "readers: DataTable::read + editing calls", "FileTools::getNextLine / putStreamIntoVectorOfStrings", "AttributesTools::getAttributesMapFromFile (real scratch files) / getAttributesMap / resolveVariables / parseOptions (include chains, cycles, absent file)",
+              "readers: DataTable::read + editing calls", "FileTools::getNextLine / putStreamIntoVectorOfStrings / getFileName / getExtension / getParent (on paths read from the option map)", "AttributesTools::getAttributesMapFromFile (real scratch files) / getAttributesMap / resolveVariables / parseOptions (include chains, cycles, absent file)",
               "ApplicationTools::get*Parameter / getVectorParameter (both) / getVectorOfVectorsParameter / getMatrixParameter / getAFilePath / matchingParameters", "BppODiscreteDistributionFormat::readDiscreteDistribution", "IntervalConstraint::readDescription",
               "KeyvalTools::parseProcedure / multipleKeyvals / singleKeyval / changeKeyvals", "NumCalcApplicationTools::getVector / seqFromString / getParameterGrid (on the option map just read)", "NestedStringTokenizer", "StringTokenizer", "ComputationTree", "TextTools (through the readers)"};
     i.stub = {"SimOutBuf (store written bytes)", "SimInBuf (serve stored bytes in 1..n byte chunks)", "harness writer for option files, include chains, key=value procedures and formulas (documented syntax; no library writer exists)", "scratch directory out/tmp/sst-<pid>-<n>/ for the file-based readers", "SimParams (AbstractParametrizable exposing addParameter_)"};
@@ -126,7 +126,7 @@ public:
                     "reach:AttributesTools::getAttributesMapFromFile", "reach:AttributesTools::getAttributesMap", "reach:AttributesTools::resolveVariables", "reach:AttributesTools::parseOptions",
                     "reach:ApplicationTools::getParameter", "reach:ApplicationTools::getVectorParameter", "reach:ApplicationTools::matchingParameters",
                     "reach:BppODiscreteDistributionFormat::readDiscreteDistribution", "reach:IntervalConstraint::readDescription", "reach:KeyvalTools::parseProcedure", "reach:KeyvalTools::multipleKeyvals",
-                    "reach:KeyvalTools::singleKeyval", "reach:NumCalcApplicationTools::getVector", "reach:NumCalcApplicationTools::seqFromString", "reach:NumCalcApplicationTools::getParameterGrid", "raised:NumCalcApplicationTools::getVector", "raised:NumCalcApplicationTools::seqFromString", "raised:NumCalcApplicationTools::getParameterGrid", "reach:KeyvalTools::changeKeyvals", "reach:NestedStringTokenizer", "reach:StringTokenizer", "reach:StringTokenizer::unparseRemainingTokens", "reach:ComputationTree",
+                    "reach:KeyvalTools::singleKeyval", "reach:FileTools::getFileName", "reach:FileTools::getExtension", "reach:FileTools::getParent", "reach:NumCalcApplicationTools::getVector", "reach:NumCalcApplicationTools::seqFromString", "reach:NumCalcApplicationTools::getParameterGrid", "raised:NumCalcApplicationTools::getVector", "raised:NumCalcApplicationTools::seqFromString", "raised:NumCalcApplicationTools::getParameterGrid", "reach:KeyvalTools::changeKeyvals", "reach:NestedStringTokenizer", "reach:StringTokenizer", "reach:StringTokenizer::unparseRemainingTokens", "reach:ComputationTree",
                     "raised:DataTable::read", "raised:DataTable::edit", "raised:AttributesTools::resolveVariables", "raised:AttributesTools::parseOptions", "raised:ApplicationTools::getParameter",
                     "raised:BppODiscreteDistributionFormat::readDiscreteDistribution", "raised:IntervalConstraint::readDescription", "raised:KeyvalTools::parseProcedure", "raised:KeyvalTools::multipleKeyvals",
                     "raised:NestedStringTokenizer", "raised:StringTokenizer", "raised:ComputationTree",
